@@ -26,7 +26,7 @@ ASSUMPTIONS = ['models are written from docs/usage.md; floats compared at 1e-12 
 BUDGET = {'quick': 50, 'thorough': 600}
 
 STRS = ['naïve café', 'ǅemal', 'ÀÉÎÕÜ', 'a\u0301b', 'straße', '𝄞clef', 'tab\tin', 'Z', 'zz top', 'UPPER lower Mixed', '0', '-1', 'hello', 'Hello World', 'MICHAEL SMITH', 'mIxEd cAsE', 'a', 'ab', 'aaa', 'héllo wörld', '中文字', 'éa', 'ΑΒΓ αβγ',
-        'a  b', '  lead', 'trail  ', '  both  ', ' ', 'x\ty', 'tab\t', 'a.b-c_d', '12345', 'AbC123', 'ß', 'aaaa', 'abcabc']
+        'a  b', '  lead', 'trail  ', '  both  ', ' ', 'x\ty', 'tab\t', 'a.b-c_d', '12345', 'AbC123', 'ß', 'aaaa', 'abcabc', 'ΩΣ', 'ΕΣ ΑΣ ΣΑΣ', 'ΟΔΟΣ aΣ']
 
 
 def bounds(tier):
@@ -39,7 +39,8 @@ def q(s):
 
 
 def initcap(s):
-    return ' '.join(w[:1].upper() + w[1:].lower() for w in s.split())
+    # the rest of a word is lower-cased as part of the word (a final sigma depends on what precedes it)
+    return ' '.join(w[:1].upper() + w.lower()[len(w[:1].lower()):] for w in s.split())
 
 
 def b64(s):
@@ -175,6 +176,10 @@ def gen(tier):
     # a bare number is no date
     for e in ("year(12345)", "year('12345')", "year('10.75')", "month(123456)", "day('2024')"):
         yield {'k': 'lit', 'expr': e, 'exp': '', 'cmp': 'eq', 'fn': 'number-is-no-date'}
+    # F(G(entry)): a function applied to what another function reads from the entry is that entry's value, row after row
+    for oi in range(len(ENTRY_OUTER)):
+        for inner in ENTRY_INNER:
+            yield {'k': 'entryfn', 'outer': oi, 'inner': inner, 'fn': 'function-of-entry-reading-function'}
     yield {'k': 'daterows', 'expr': 'year(name)', 'fn': 'date-rows'}
     yield {'k': 'daterows', 'expr': 'month(name)', 'fn': 'date-rows'}
     yield {'k': 'daterows', 'expr': 'day(name)', 'fn': 'date-rows'}
@@ -297,6 +302,12 @@ FILES = {}
 for i, s_ in enumerate(STRS):
     FILES[s_] = F(i * 37 % 300, mtime=T0 + i * 86400 * 40)
 FILES['noext'] = F(255, mtime=1583020799)
+FILES['has needle'] = F(11, data='a needle b\n', xattr={'user.k': b'Val One'}, mtime=T0 + 5)
+FILES['no_needle'] = F(4, data='xyz\n', mtime=T0 + 86400 * 3)
+FILES['other k'] = F(6, data='needle', xattr={'user.k': b'second'}, mtime=T0 + 86400 * 400)
+ENTRY_OUTER = [('upper(%s)', lambda v: v.upper()), ('length(%s)', lambda v: str(len(v))), ("concat(%s, 'x')", lambda v: v + 'x'), ("coalesce(%s, '-')", lambda v: v or '-'),
+               ('lower(upper(%s))', lambda v: v.lower()), ('substr(%s, 2)', lambda v: v[1:]), ("replace(%s, 'e', 'E')", lambda v: v.replace('e', 'E')), ('initcap(%s)', None)]
+ENTRY_INNER = ["contains('needle')", "xattr('user.k')", "has_xattr('user.k')", "contains('xyz')"]
 
 
 def eval_group(env, group, tier):
@@ -405,6 +416,20 @@ def eval_group(env, group, tier):
                         viol(c['fn'], {'query': q2, 'row': bad[0][0], 'column': bad[0][1], 'got': bad[0][2], 'alone': bad[0][3]})
                     else:
                         r.update(status='ok', sig=tuple(rows_[0][1:]))
+            elif k == 'entryfn':
+                tmpl, f = ENTRY_OUTER[c['outer']]
+                q2 = 'name, %s, %s from . into list' % (tmpl % c['inner'], c['inner'])
+                o = env.run([q2], cwd=root)
+                rows_ = o.rows(3)
+                alone = dict(env.run(['name, %s from . into list' % (tmpl % c['inner'])], cwd=root).rows(2) or [])
+                if o.rc != 0 or o.err or not rows_:
+                    viol(c['fn'] + ':status', dict(o.brief(), query=q2))
+                else:
+                    bad = [row for row in rows_ if (f is not None and row[1] != f(row[2])) or alone.get(row[0]) != row[1]]
+                    if bad or len({row[2] for row in rows_}) < 2:
+                        viol(c['fn'], {'query': q2, 'row': bad[0] if bad else None, 'expected': f(bad[0][2]) if bad and f else None, 'alone': alone.get(bad[0][0]) if bad else None})
+                    else:
+                        r.update(status='ok', sig=tuple(sorted(set(row[1] for row in rows_))))
             elif k == 'pair':
                 # differential: the value of each call next to the other equals its value alone
                 q2 = 'name, %s, %s from . into list' % (c['a'], c['b'])
